@@ -1,4 +1,4 @@
-import ShredModel.Lemmas.ParSeqBuild
+import ShredModel.Lemmas.ParSeqShape
 /-!
 # C16 — Par/Seq trees: structure is honoured, conflicts are rejected in debug builds
 
@@ -234,6 +234,21 @@ theorem built_isolated (decl : Nat → Decl) (toks : List Tok) (t : PS) (hb : bu
 example : build exDecl [.openSeq, .openPar, .leaf 0, .leaf 1, .close, .leaf 2, .close] = .built ex := by rfl
 example : build exDecl [.openPar, .leaf 0, .openSeq, .leaf 1, .close, .leaf 2, .close] = .panic 0 2 := by rfl
 
+/-- **The driver's token machine is the recursive construction.** For an n-ary shape `s` (leaf, or
+`par![..]` / `seq![..]` with at least one child, nested at will), running `build` on its token
+list is the bottom-up construction with `parOf` / `seqOf` (`Sh.eval`): children left to right,
+then the node; the first panicking `with` is reported as (position of the node's `P[`, child).
+So `parOf_spec` and `seqOf_order` describe every node of every tree the driver builds. -/
+theorem build_is_recursive (decl : Nat → Decl) (s : Sh) :
+    build decl s.toks =
+      match s.eval decl 0 with
+      | .ok t => .built t
+      | .error (n, k) => .panic n k :=
+  build_shape decl s
+
+example : (Sh.node false (.cons (.node true (.cons (.leaf 0) (.one (.leaf 1)))) (.one (.leaf 2)))).toks
+    = [.openSeq, .openPar, .leaf 0, .leaf 1, .close, .leaf 2, .close] := by rfl
+
 /-- the acceptor the driver runs is exact for these tasks: an event list is accepted iff it is a
 trace (so every theorem above applies to every accepted real trace, and no real trace that is
 a trace is ever rejected) -/
@@ -260,4 +275,5 @@ end Shred
 #print axioms Shred.PS.parOf_panics_iff
 #print axioms Shred.PS.checked_isolated
 #print axioms Shred.PS.built_isolated
+#print axioms Shred.PS.build_is_recursive
 #print axioms Shred.PS.acceptor_exact
